@@ -38,7 +38,7 @@ var lifeAlphabet = func() []lcall {
 	for c := 0; c < 2; c++ {
 		a = append(a, lcall{"act", c, 0}, lcall{"deact", c, 0})
 		for d := 0; d < 2; d++ {
-			a = append(a, lcall{"att", c, d}, lcall{"pp", c, d}, lcall{"det", c, d}, lcall{"rem", c, d}, lcall{"atts", c, d}, lcall{"attf", c, d})
+			a = append(a, lcall{"att", c, d}, lcall{"pp", c, d}, lcall{"det", c, d}, lcall{"rem", c, d}, lcall{"atts", c, d}, lcall{"attf", c, d}, lcall{"rem0", c, d}, lcall{"det0", c, d})
 		}
 	}
 	return a
@@ -47,6 +47,7 @@ var lifeAlphabet = func() []lcall {
 type lifeSlot struct {
 	c    *sim.MClient
 	atts [2]*sim.Att
+	ever [2]bool // the Document instance kept in atts was attached successfully at least once
 }
 
 const dummyDocID = "000000000000000000000000"
@@ -93,6 +94,7 @@ func runLifeSeq(ctx context.Context, srv *sim.Server, seqNo int, calls []lcall, 
 		var err error
 		nch := 0
 		skipped := false
+		freshAtts := false
 		switch call.k {
 		case "act":
 			if sl != nil {
@@ -131,6 +133,7 @@ func runLifeSeq(ctx context.Context, srv *sim.Server, seqNo int, calls []lcall, 
 					old.Close()
 				}
 				sl.atts[call.d] = a
+				sl.ever[call.d] = true
 				knownDocID[call.d] = a.DocID
 			} else {
 				a.Close()
@@ -148,6 +151,7 @@ func runLifeSeq(ctx context.Context, srv *sim.Server, seqNo int, calls []lcall, 
 					old.Close()
 				}
 				sl.atts[call.d] = a
+				sl.ever[call.d] = true
 				knownDocID[call.d] = a.DocID
 				break
 			}
@@ -161,6 +165,7 @@ func runLifeSeq(ctx context.Context, srv *sim.Server, seqNo int, calls []lcall, 
 					d, stop := sim.NewDoc(keys[call.d])
 					d.SetActor(sl.c.ID)
 					sl.atts[call.d] = sim.NewRawAtt(sl.c, d, di.ID.String(), stop)
+					sl.ever[call.d] = false
 				}
 			}
 		case "atts": // attach again with the SAME Document instance (not a fresh one)
@@ -168,7 +173,7 @@ func runLifeSeq(ctx context.Context, srv *sim.Server, seqNo int, calls []lcall, 
 				skipped = true
 				break
 			}
-			if old := sl.atts[call.d]; old != nil && old.DocID != dummyDocID {
+			if old := sl.atts[call.d]; old != nil && old.DocID != dummyDocID && sl.ever[call.d] {
 				nch = len(old.Doc.CreateChangePack().Changes)
 				a, f := sl.c.AttachBeginWith(ctx, old.Doc, old.Stop(), sim.AttachOpts{DisablePresence: true})
 				err = f.Apply()
@@ -177,17 +182,23 @@ func runLifeSeq(ctx context.Context, srv *sim.Server, seqNo int, calls []lcall, 
 					knownDocID[call.d] = a.DocID
 				}
 			} else {
+				// no instance of this slot was ever attached to the key: this is an ordinary attach
+				freshAtts = true
 				nch = 1
 				a, e := sl.c.Attach(ctx, keys[call.d], sim.AttachOpts{DisablePresence: true, Pre: lifePre(i)})
 				err = e
 				if e == nil {
+					if old := sl.atts[call.d]; old != nil {
+						old.Close()
+					}
 					sl.atts[call.d] = a
+					sl.ever[call.d] = true
 					knownDocID[call.d] = a.DocID
 				} else {
 					a.Close()
 				}
 			}
-		case "pp", "det", "rem":
+		case "pp", "det", "rem", "rem0", "det0":
 			if sl == nil {
 				skipped = true
 				break
@@ -201,21 +212,22 @@ func runLifeSeq(ctx context.Context, srv *sim.Server, seqNo int, calls []lcall, 
 				a = sim.NewRawAtt(sl.c, d, knownDocID[call.d], stop)
 				sl.atts[call.d] = a
 			}
-			// one local edit rides in the request
-			uerr := a.Doc.Update(func(root *json.Object, pr *presence.Presence) error {
-				root.SetInteger("k", i)
-				return nil
-			})
-			if uerr == nil {
-				nch = len(a.Doc.CreateChangePack().Changes)
+			// one local edit rides in the request (rem0/det0: only if one is pending anyway - a
+			// request whose pack may be empty)
+			if call.k != "rem0" && call.k != "det0" {
+				_ = a.Doc.Update(func(root *json.Object, pr *presence.Presence) error {
+					root.SetInteger("k", i)
+					return nil
+				})
 			}
+			nch = len(a.Doc.CreateChangePack().Changes)
 			switch call.k {
 			case "pp":
 				err = a.SyncBegin(ctx, false).Apply()
-			case "det":
+			case "det", "det0":
 				f := a.DetachBeginNoClear(ctx)
 				err = f.Apply()
-			case "rem":
+			case "rem", "rem0":
 				err = a.Remove(ctx)
 			}
 		}
@@ -250,12 +262,16 @@ func runLifeSeq(ctx context.Context, srv *sim.Server, seqNo int, calls []lcall, 
 		case "att":
 			cc = coqfmt.App("LAttach", coqfmt.N(uint64(call.c)), coqfmt.N(uint64(call.d)), coqfmt.Z(int64(nch)))
 		case "atts":
+			if freshAtts {
+				cc = coqfmt.App("LAttach", coqfmt.N(uint64(call.c)), coqfmt.N(uint64(call.d)), coqfmt.Z(int64(nch)))
+				break
+			}
 			cc = coqfmt.App("LAttachSame", coqfmt.N(uint64(call.c)), coqfmt.N(uint64(call.d)), coqfmt.Z(int64(nch)))
 		case "pp":
 			cc = coqfmt.App("LPushPull", coqfmt.N(uint64(call.c)), coqfmt.N(uint64(call.d)), coqfmt.Z(int64(nch)))
-		case "det":
+		case "det", "det0":
 			cc = coqfmt.App("LDetach", coqfmt.N(uint64(call.c)), coqfmt.N(uint64(call.d)), coqfmt.Z(int64(nch)))
-		case "rem":
+		case "rem", "rem0":
 			cc = coqfmt.App("LRemove", coqfmt.N(uint64(call.c)), coqfmt.N(uint64(call.d)), coqfmt.Z(int64(nch)))
 		case "attf":
 			cc = coqfmt.App("LAttachFail", coqfmt.N(uint64(call.c)), coqfmt.N(uint64(call.d)), coqfmt.Z(int64(nch)))
@@ -330,7 +346,7 @@ func runLife(cfg *config) error {
 				case !att[c][d]:
 					s = append(s, lcall{"att", c, d})
 				default:
-					s = append(s, lcall{[]string{"pp", "pp", "det", "rem", "deact", "att", "atts", "attf"}[r.Intn(8)], c, d})
+					s = append(s, lcall{[]string{"pp", "pp", "det", "rem", "deact", "att", "atts", "attf", "rem0", "det0"}[r.Intn(10)], c, d})
 				}
 			}
 			last := s[len(s)-1]
@@ -345,7 +361,7 @@ func runLife(cfg *config) error {
 				if active[last.c] {
 					att[last.c][last.d] = true
 				}
-			case "det", "rem":
+			case "det", "rem", "det0", "rem0":
 				att[last.c][last.d] = false
 			}
 		}
